@@ -1,9 +1,121 @@
-(* Composed DHCPv4 server step (Model/DhcpServer.v) -- statements only. *)
-From Erbium Require Import Lib.Base Model.DhcpCodec Model.DhcpPool Model.DhcpServer.
+(* The composed DHCPv4 server step (Model/DhcpServer.v: decode -> message-type / server-id
+   gate -> policy walk -> lease store (relational in the pool's answer) -> reply -> encode ->
+   destination -> frame) and the theorems that tie the per-property results together.
+   Statements only; every proof is `exact <lemma of Proofs/DhcpServer.v>`. *)
+From Erbium Require Import Lib.Base Model.DhcpCodec Model.DhcpOptVal Model.DhcpPolicy Model.DhcpAddrs
+  Model.DhcpPool Model.DhcpHandler Model.Frame Model.DhcpServer.
+From Erbium Require Import Proofs.DhcpPool Proofs.DhcpPoolCrash Proofs.DhcpServer.
 
-Theorem S00_undecodable_is_dropped : forall cfg st t1 t2 e b ans x,
-  decode b = Err x -> server_step cfg st t1 t2 e b ans = Ok (st, None).
-Proof. intros. unfold server_step. rewrite H. reflexivity. Qed.
-Check S00_undecodable_is_dropped : forall cfg st t1 t2 e b ans x,
-  decode b = Err x -> server_step cfg st t1 t2 e b ans = Ok (st, None).
-Print Assumptions S00_undecodable_is_dropped.
+(* S01 -- totality.  Full statement wanted:
+     forall cfg st t1 t2 e b ans, is_panic (server_step cfg st t1 t2 e b ans) = false.
+   Proved under two hypotheses, both necessary for the model as it stands:
+   (1) every stored row has start <= expiry (else `expiry - start` in the revive step
+       underflows: the model's Panicked answer) -- an invariant of every store the server
+       itself wrote (C10_record_covers);
+   (2) the encoded reply fits a UDP datagram (<= 65507 octets): new_udp4 computes
+       `20_u16 + len as u16` with overflow checks.  Missing to discharge (2) from the
+       configuration: a bound on the total size of the option values a policy chain can
+       put into one reply (no such bound exists in the loader). *)
+Theorem S01_total_partial : forall cfg st t1 t2 e b ans,
+  rows_wf (fst st) ->
+  (forall r, reply_of cfg st t2 e b ans = Some r -> lenN (encode r) <= 65507) ->
+  is_panic (server_step cfg st t1 t2 e b ans) = false.
+Proof. exact step_no_panic. Qed.
+Check S01_total_partial : forall cfg st t1 t2 e b ans,
+  rows_wf (fst st) ->
+  (forall r, reply_of cfg st t2 e b ans = Some r -> lenN (encode r) <= 65507) ->
+  is_panic (server_step cfg st t1 t2 e b ans) = false.
+Print Assumptions S01_total_partial.
+
+(* S02 -- lifts C13: a frame only for a DISCOVER or an acceptable REQUEST ... *)
+Theorem S02_frame_only_when_answerable : forall cfg st t1 t2 e b ans st' f,
+  server_step cfg st t1 t2 e b ans = Ok (st', Some f) ->
+  exists m, decode b = Ok m /\ answerable (snd st) (e_serverip e) m.
+Proof. exact frame_only_when_answerable. Qed.
+Check S02_frame_only_when_answerable : forall cfg st t1 t2 e b ans st' f,
+  server_step cfg st t1 t2 e b ans = Ok (st', Some f) ->
+  exists m, decode b = Ok m /\ answerable (snd st) (e_serverip e) m.
+Print Assumptions S02_frame_only_when_answerable.
+
+(* ... otherwise the state (lease rows and server identifiers) is exactly what it was.
+   The one exception the code has: an answerable message whose hardware address is shorter
+   than six octets is allocated a lease and then not answered ("Cannot send reply to invalid
+   client hardware addr") -- the lease is written before the check. *)
+Theorem S02_silence_is_inert : forall cfg st t1 t2 e b ans st',
+  server_step cfg st t1 t2 e b ans = Ok (st', None) ->
+  st' = st \/ exists m, decode b = Ok m /\ answerable (snd st) (e_serverip e) m /\ lenN (d_chaddr m) < 6.
+Proof. exact silent_step_inert. Qed.
+Check S02_silence_is_inert : forall cfg st t1 t2 e b ans st',
+  server_step cfg st t1 t2 e b ans = Ok (st', None) ->
+  st' = st \/ exists m, decode b = Ok m /\ answerable (snd st) (e_serverip e) m /\ lenN (d_chaddr m) < 6.
+Print Assumptions S02_silence_is_inert.
+
+(* S03 -- if a frame is produced: it is the Ethernet/IPv4/UDP frame around `encode reply`,
+   from (server address, 67) to (broadcast iff bit 15 of the request's flags, else yiaddr)
+   and the first six octets of the client's hardware address (C12) ... *)
+Theorem S03_frame : forall cfg st t1 t2 e b ans st' f,
+  server_step cfg st t1 t2 e b ans = Ok (st', Some f) ->
+  exists m r ip secs k mac,
+    granted_step cfg st t1 t2 e b ans st' m r ip secs k /\
+    mac = takeN 6 (d_chaddr m) /\ 6 <= lenN (d_chaddr m) /\
+    f = udp4_frame (frame_args e m r mac) /\
+    u_payload (frame_args e m r mac) = encode r /\
+    u_dst_ip (frame_args e m r mac) = be32 (if N.testbit (d_flags m) 15 then 4294967295 else d_yiaddr r).
+Proof. exact frame_facts. Qed.
+Check S03_frame : forall cfg st t1 t2 e b ans st' f,
+  server_step cfg st t1 t2 e b ans = Ok (st', Some f) ->
+  exists m r ip secs k mac,
+    granted_step cfg st t1 t2 e b ans st' m r ip secs k /\
+    mac = takeN 6 (d_chaddr m) /\ 6 <= lenN (d_chaddr m) /\
+    f = udp4_frame (frame_args e m r mac) /\
+    u_payload (frame_args e m r mac) = encode r /\
+    u_dst_ip (frame_args e m r mac) = be32 (if N.testbit (d_flags m) 15 then 4294967295 else d_yiaddr r).
+Print Assumptions S03_frame.
+
+(* ... and the reply inside it: yiaddr is an address the configuration allows for this
+   request (C02 through the pool bridge), option 51 is the lease time, inside the bounds
+   and exactly the window of the row now recorded (C10), and xid / chaddr / htype / hlen /
+   giaddr / flags are the request's (C13). *)
+Theorem S03_reply : forall cfg st t1 t2 e b ans st' m r ip secs k,
+  granted_step cfg st t1 t2 e b ans st' m r ip secs k ->
+  sc_min cfg <= sc_max cfg -> t2 + sc_max cfg < pow2 32 ->
+  d_yiaddr r = ip /\ allowed (sc_conf cfg) (request_of e m) ip = true /\
+  sc_min cfg <= secs <= sc_max cfg /\ opt_get (d_options r) 51 = Some (be32 secs) /\
+  (exists row, find_addr ip (fst st') = Some row /\ r_client row = client_id m /\
+               r_start row = t2 /\ r_expiry row = t2 + secs) /\
+  d_op r = 2 /\ d_xid r = d_xid m /\ d_chaddr r = d_chaddr m /\ d_htype r = d_htype m /\
+  d_hlen r = d_hlen m /\ d_giaddr r = d_giaddr m /\ d_flags r = d_flags m.
+Proof. exact reply_facts. Qed.
+Check S03_reply : forall cfg st t1 t2 e b ans st' m r ip secs k,
+  granted_step cfg st t1 t2 e b ans st' m r ip secs k ->
+  sc_min cfg <= sc_max cfg -> t2 + sc_max cfg < pow2 32 ->
+  d_yiaddr r = ip /\ allowed (sc_conf cfg) (request_of e m) ip = true /\
+  sc_min cfg <= secs <= sc_max cfg /\ opt_get (d_options r) 51 = Some (be32 secs) /\
+  (exists row, find_addr ip (fst st') = Some row /\ r_client row = client_id m /\
+               r_start row = t2 /\ r_expiry row = t2 + secs) /\
+  d_op r = 2 /\ d_xid r = d_xid m /\ d_chaddr r = d_chaddr m /\ d_htype r = d_htype m /\
+  d_hlen r = d_hlen m /\ d_giaddr r = d_giaddr m /\ d_flags r = d_flags m.
+Print Assumptions S03_reply.
+
+(* S04 -- lifts C01 to histories of received datagrams: the datagrams that get as far as
+   allocate_address form a lease-store history (pool_history) in which a step whose reply
+   did not go out as a frame counts as lost; that history is admitted by the lease-store
+   model, ends in the server's store, and in its grant log -- (client id of the request,
+   yiaddr, time, recorded expiry) of every datagram answered with a frame -- no two clients
+   hold one address at the same time. *)
+Theorem S04_no_double_allocation : forall cfg M h st now st' fs,
+  sc_max cfg = M -> sc_min cfg <= sc_max cfg ->
+  Inv (fst st) -> RowsOK M now (fst st) ->
+  wf_times M now h = true ->
+  server_run cfg st h = Some (st', fs) ->
+  exists log, run_lossy_from (fst st, []) (pool_history cfg st h) = Some (fst st', log) /\
+              forall a b x t, a <> b -> ~ (holds log a x t /\ holds log b x t).
+Proof. exact server_no_double. Qed.
+Check S04_no_double_allocation : forall cfg M h st now st' fs,
+  sc_max cfg = M -> sc_min cfg <= sc_max cfg ->
+  Inv (fst st) -> RowsOK M now (fst st) ->
+  wf_times M now h = true ->
+  server_run cfg st h = Some (st', fs) ->
+  exists log, run_lossy_from (fst st, []) (pool_history cfg st h) = Some (fst st', log) /\
+              forall a b x t, a <> b -> ~ (holds log a x t /\ holds log b x t).
+Print Assumptions S04_no_double_allocation.
